@@ -332,6 +332,10 @@ func Decrypt(priv *PrivateKey, data []byte, mode int) ([]byte, error) {
 	if len(data) < 1+64+32+1 {
 		return nil, errors.New("Decrypt: ciphertext too short")
 	}
+	// C1 is encoded as an uncompressed point: PC = 0x04
+	if data[0] != 0x04 {
+		return nil, errors.New("Decrypt: C1 is not an uncompressed point")
+	}
 	switch mode {
 	case C1C3C2:
 		data = data[1:]
